@@ -332,11 +332,12 @@ impl UintVecMin0 {
         // SAFETY: is_empty() check above guarantees iterator has at least one element
         let &min_val = src.iter().min().unwrap();
         let &max_val = src.iter().max().unwrap();
-        let wire_max = (max_val - min_val) as usize;
+        // widen first: max - min of two i32 values can exceed i32::MAX
+        let wire_max = (max_val as i64 - min_val as i64) as usize;
 
         let mut vec = Self::new(src.len(), wire_max);
         for (i, &val) in src.iter().enumerate() {
-            vec.set(i, (val - min_val) as usize);
+            vec.set(i, (val as i64 - min_val as i64) as usize);
         }
 
         (vec, min_val)
